@@ -52,7 +52,9 @@ references / acquisitions; entries `api::<Handler>::<fn>`), servers/src/mining/s
 in run; WorkersList locks), mining/test_miner.rs (`Miner::run_loop`), p2p/src/peer.rs (`Peer::…`: state, send_handle,
 stop_handle Mutexes; `TrackingAdapter::…` = what a connection thread calls, resolved to `Peers::…` ->
 `NetToChainAdapter::…`); a call `p.op(..)` / `peer.op(..)` / `sync_peer.op(..)` is `Peer::op` when that exists.
-NOT covered: api/src/{foreign,owner}.rs wrappers (they build the handlers above and call them), api/ handlers (they take `tx_pool.read()/write()` through a Weak and call the same
+Increment 4: api/src/{foreign,owner}.rs (`let h = XHandler { .. }; h.op(..)` resolved to `XHandler::op`; entries
+`api::Foreign::…`, `api::Owner::…`).
+NOT covered: api/ handlers (they take `tx_pool.read()/write()` through a Weak and call the same
 TransactionPool methods; shapes `w(&self.tx_pool)?.read()` are not translated), servers/src/grin/sync/*
 (they call chain ops and SyncState methods one after the other, holding nothing of their own except the
 desegmenter guard, which the chain-level table already wraps around every Desegmenter entry), stratum.
@@ -138,6 +140,8 @@ FILES = [
     "api/src/handlers/transactions_api.rs",
     "api/src/handlers/peers_api.rs",
     "api/src/handlers/version_api.rs",
+    "api/src/foreign.rs",
+    "api/src/owner.rs",
 ]
 
 
@@ -287,6 +291,12 @@ class NodeTranslator(G.Translator):
             self.inline(ctx, ("Peer", items[i + 2].text), t.line)
             self.rec["peer-call"] = self.rec.get("peer-call", 0) + 1
             return 4
+        # ---- h.NAME(args) on a handler object built in this function (foreign.rs / owner.rs)
+        if t.kind == "id" and t.text in ctx.get("objs", {}) and not is_p(prev, ".") and is_p(at(items, i + 1), ".") \
+                and is_id(at(items, i + 2)) and is_grp(at(items, i + 3), "("):
+            if self.call_method(ctx, ctx["objs"][t.text], items[i + 2].text, items[i + 3], t.line, must=True):
+                self.rec["api-wrapper"] = self.rec.get("api-wrapper", 0) + 1
+                return 4
         # ---- chain.NAME(args): `chain` a parameter (mine_block.rs)
         if is_id(t, "chain") and ("chain" in ctx.get("params", ()) or (impl or "").endswith("Handler") and impl != "Handler") and not is_p(prev, ".") and not is_p(prev, "::") \
                 and is_p(at(items, i + 1), ".") and is_id(at(items, i + 2)) and is_grp(at(items, i + 3), "("):
@@ -377,6 +387,12 @@ class NodeTranslator(G.Translator):
         return k
 
     def stmt(self, st, ctx, sc):
+        # `let h = SomeHandler { chain: self.chain.clone(), .. };` (api/src/foreign.rs, owner.rs): remember the type of `h`
+        if is_id(st[0], "let"):
+            j = 2 if is_id(at(st, 1), "mut") else 1
+            if is_id(at(st, j)) and is_p(at(st, j + 1), "=") and is_id(at(st, j + 2)) and is_grp(at(st, j + 3), "{") \
+                    and len(st) == j + 4 and st[j + 2].text.endswith("Handler"):
+                ctx.setdefault("objs", {})[st[j].text] = st[j + 2].text
         # `let x[: T] = &[mut] <lock call>;` - the temporary guard's lifetime is extended to the end of the
         # enclosing block (types.rs SyncState::update_header_sync): a block-scoped guard
         if is_id(st[0], "let"):
@@ -521,6 +537,8 @@ def generate(repo_root, die):
         elif impl in ("Peer", "TrackingAdapter", "Handler", "WorkersList", "StratumServer", "Miner") and fd.has_self:
             roots.append((("Stratum" if impl == "Handler" else impl) + "::" + name, (impl, name)))
         elif impl is not None and impl.endswith("Handler") and impl != "Handler" and fd.has_self:
+            roots.append(("api::" + impl + "::" + name, (impl, name)))
+        elif impl in ("Foreign", "Owner") and fd.has_self and fd.pub:
             roots.append(("api::" + impl + "::" + name, (impl, name)))
         elif impl is None and name in ("get_output", "get_output_v2", "update_pool"):
             roots.append(("api::" + name, (None, name)))
